@@ -210,3 +210,35 @@ def inequality_set(test):
             parts.append((tuple(sorted(p.items())), o))
             left = right
     return frozenset(parts)
+
+
+def linear_rref(polys):
+    """canonical form (reduced row-echelon, exact rationals) of a system of linear equalities `p == 0` over atoms; equal
+    forms <=> the conjunctions of equalities are equivalent.  None when some polynomial is not linear."""
+    from fractions import Fraction
+    atoms = sorted({m[0] for p in polys for m in p if len(m) == 1})
+    if any(len(m) > 1 for p in polys for m in p):
+        return None
+    cols = atoms + [()]
+    rows = []
+    for p in polys:
+        rows.append([Fraction(p.get((a,), 0)) if a != () else Fraction(p.get((), 0)) for a in cols])
+    r = 0
+    for c in range(len(cols) - 1):
+        piv = None
+        for i in range(r, len(rows)):
+            if rows[i][c] != 0:
+                piv = i
+                break
+        if piv is None:
+            continue
+        rows[r], rows[piv] = rows[piv], rows[r]
+        pv = rows[r][c]
+        rows[r] = [x / pv for x in rows[r]]
+        for i in range(len(rows)):
+            if i != r and rows[i][c] != 0:
+                f = rows[i][c]
+                rows[i] = [a - f * b for a, b in zip(rows[i], rows[r])]
+        r += 1
+    rows = [tuple(x) for x in rows if any(v != 0 for v in x)]
+    return (tuple(cols), tuple(sorted(rows)))
